@@ -1,5 +1,5 @@
-(* C30 — proofs, part 8: the model satisfies the checker (open finding D3 carved out);
-   the D3 witness; examples for the hypotheses. *)
+(* C30 — proofs, part 8: the model satisfies the checker; the former D3 witness now round-trips;
+   examples for the hypotheses. *)
 From Coq Require Import List ZArith NArith Bool Arith Lia ZifyBool String.
 Import ListNotations.
 From TV Require Import Lib.Obs Lib.C21_Utf8 Lib.C21_Pct.
@@ -100,14 +100,14 @@ Proof.
     exact (limits_of_parse (cfg_of (en, mp, mh)) hd body a f mp mh eq_refl eq_refl Hr).
 Qed.
 
-(* ---------- (3) losslessness, D3 carved out ---------- *)
+(* ---------- (3) losslessness ---------- *)
 Lemma forallb_Forall_true {A} (p : A -> bool) l : forallb p l = true -> Forall (fun x => p x = true) l.
 Proof. intros H. apply Forall_forall. rewrite forallb_forall in H. exact H. Qed.
 
-Lemma lossless_model i : lossless false i (run_case i) = true.
+Lemma lossless_model i : lossless i (run_case i) = true.
 Proof.
   destruct i as [[[[[entry hd] body] ce] c] sp]. unfold lossless.
-  destruct (spec_applies false (entry, hd, body, ce, c, sp)) eqn:E; [|reflexivity].
+  destruct (spec_applies (entry, hd, body, ce, c, sp)) eqn:E; [|reflexivity].
   unfold spec_applies in E. destruct sp as [|ps|b e ps]; [discriminate| |].
   - apply andb_true_iff in E as [E E5]. apply andb_true_iff in E as [E E4]. apply andb_true_iff in E as [E E3].
     apply andb_true_iff in E as [E1 E2]. subst entry. apply str_eqb_eq in E2, E5. subst hd body.
@@ -125,29 +125,22 @@ Proof.
       rewrite (multipart_roundtrip (cfg_of c) b e ps body E1 Hok E3 Ex). apply obs_eqb_refl.
 Qed.
 
-Theorem model_satisfies_checker_d3 : forall i, check_case_d3 i (run_case i) = true.
+Theorem model_satisfies_checker : forall i, check_case i (run_case i) = true.
 Proof.
-  intros i. unfold check_case_d3. rewrite limits_model, lossless_model.
+  intros i. unfold check_case. rewrite limits_model, lossless_model.
   unfold run_case. rewrite (clean_out _ (run_model_clean i)). reflexivity.
 Qed.
 
-(* ---------- the open finding D3: a witness ---------- *)
-(* field named  a\  (quoted-string, so written "a\\") with a file named f, boundary B *)
+(* ---------- the former finding D3 (fixed 8596f7f) as a regression example ---------- *)
+(* field named  a\  (quoted-string: written with two backslashes) with a file named f, boundary B *)
 Definition d3_form : list fpart := [mkFp [97; 92] Quoted (Some ([102], Quoted, [116])) [120]].
 Definition d3_cfg : mconfig := mkCfg true 100 10240.
 
-Theorem d3_witness :
-  exists data,
-    boundary_ok [66] = true /\ forallb (part_ok_full [66]) d3_form = true /\ config_ok d3_cfg d3_form = true
-    /\ encode_multipart [66] true d3_form = Some data
-    /\ parse_multipart d3_cfg [66] data <> Ok (expected d3_form)
-    /\ check_case (false, [66], data, false, (true, 100, 10240), SMulti [66] true d3_form)
-                  (run_case (false, [66], data, false, (true, 100, 10240), SMulti [66] true d3_form)) = false.
-Proof.
-  eexists. split; [reflexivity|]. split; [vm_compute; reflexivity|]. split; [vm_compute; reflexivity|].
-  split; [vm_compute; reflexivity|]. split; [|vm_compute; reflexivity].
-  vm_compute. discriminate.
-Qed.
+Example d3_form_roundtrips :
+  exists data, encode_multipart [66] true d3_form = Some data
+               /\ forallb (part_ok_full [66]) d3_form = true
+               /\ parse_multipart d3_cfg [66] data = Ok (expected d3_form).
+Proof. eexists. split; [vm_compute; reflexivity|]. split; vm_compute; reflexivity. Qed.
 
 (* ---------- the hypotheses of the round-trip theorems are satisfiable ---------- *)
 (* two styles, non-ASCII, quotes, backslashes, control characters (ext-value), a repeated name,
@@ -159,7 +152,7 @@ Definition ex_form : list fpart :=
     mkFp [97; 92] Quoted None [118] ].
 
 Example ex_form_in_domain :
-  boundary_ok [66; 45; 49] = true /\ forallb (part_ok [66; 45; 49]) ex_form = true
+  boundary_ok [66; 45; 49] = true /\ forallb (part_ok_full [66; 45; 49]) ex_form = true
   /\ config_ok (mkCfg true 5 200) ex_form = true
   /\ exists data, encode_multipart [66; 45; 49] true ex_form = Some data.
 Proof. repeat split; try (vm_compute; reflexivity). eexists. vm_compute. reflexivity. Qed.
@@ -172,20 +165,3 @@ Example ex_limits_hypotheses :
     /\ 1 < N.of_nat (List.length (split_bytes (DASH2 ++ unquote_boundary [66] ++ CRLF) pre)).
 Proof. eexists. split; [vm_compute; reflexivity|vm_compute; reflexivity]. Qed.
 
-(* ---------- the two checkers differ only on D3 forms ---------- *)
-Definition no_d3 (i : input) : bool :=
-  let '(_, _, _, _, _, sp) := i in
-  match sp with
-  | SMulti _ _ ps => forallb (fun p => negb (part_defect p)) ps
-  | _ => true
-  end.
-
-Lemma checkers_agree i o : no_d3 i = true -> check_case i o = check_case_d3 i o.
-Proof.
-  destruct i as [[[[[entry hd] body] ce] c] sp]. unfold no_d3, check_case, check_case_d3, lossless. intros H.
-  replace (spec_applies true (entry, hd, body, ce, c, sp)) with (spec_applies false (entry, hd, body, ce, c, sp)); [reflexivity|].
-  unfold spec_applies. destruct sp as [|ps|b e ps]; [reflexivity|reflexivity|].
-  replace (forallb (part_ok b) ps) with (forallb (part_ok_full b) ps); [reflexivity|].
-  induction ps as [|p ps IH]; [reflexivity|]. cbn [forallb] in *. apply andb_true_iff in H as [H1 H2].
-  rewrite (IH H2). unfold part_ok. rewrite H1, andb_true_r. reflexivity.
-Qed.
